@@ -48,6 +48,14 @@ ANext == \E t \in 1..2, b \in 1..3 : \/ \E c \in 1..2 : Fresh(t, b, c)
                                      \/ Take(t, b) \/ Keep(t, b) \/ Drop(t, b) \/ Freed(b)
 ASpec == AInit(3, 1) /\ [][ANext]_avars
 OneOwner == Owned \cap cached = {} /\ Owned \cap dying = {} /\ cached \cap dying = {}
+
+(* Placement: the part of the property about addresses ("aligned as requested, at least as large as asked", and no
+   byte belongs to two owners).  A block handed out is the extent [d, d + n) of n = count * elem_size bytes; it must
+   be aligned to the arena's alignment, lie inside the memory [base, base + sz) that the arena obtained from the
+   system for this block, and be apart from the extent of every other block that is owned at the same time. *)
+Aligned(d, a) == d % a = 0
+Inside(d, n, base, sz) == base <= d /\ d + n <= base + sz
+Apart(d1, n1, d2, n2) == d1 + n1 <= d2 \/ d2 + n2 <= d1
 WithinLimits == /\ (maxUsed # Inf => Elems <= maxUsed)
                 /\ (maxCached # Inf => Cardinality(cached) <= maxCached)
                 /\ \A b \in cached : cnt[b] = 1
